@@ -24,7 +24,7 @@ Part 3 (oracle), cross-thread object use: objects loaded in thread A's live sess
 """
 import itertools, json, os, threading, traceback
 
-from pony.orm import Database, Required, Optional, Set, db_session, select, rollback, flush
+from pony.orm import Database, Required, Optional, Set, Json, db_session, select, rollback, flush
 from pony.orm import core
 import ponyutil
 
@@ -111,6 +111,7 @@ class Env(object):
             a = Required(int)
             b = Optional(int)
             lz = Optional(str, lazy=True)
+            js = Optional(Json)
             ds = Set('D')
             ms = Set('M')
         class D(db.Entity):
@@ -126,7 +127,7 @@ class Env(object):
         db.generate_mapping(create_tables=True)
         with db_session:
             for i, n in enumerate(NAMES):
-                e = E(name=n, a=i, b=(None if i == 2 else 2 * i), lz='L%d' % i)
+                e = E(name=n, a=i, b=(None if i == 2 else 2 * i), lz='L%d' % i, js={'k': [i]})
                 D(e=e, t='t%d' % i)
                 M(es=[e])
         db.disconnect()
@@ -693,7 +694,8 @@ def part3(ctx, env):
         try:
             with db_session:
                 box['e1'] = E[1]; box['d2'] = D[2]; box['e2'] = box['d2'].e; box['m1'] = M[1]
-                box['e3'] = E[3]; list(box['e3'].ds)
+                box['e3'] = E[3]; list(box['e3'].ds); list(box['e3'].ms)
+                box['e5'] = E[5]; box['e5'].a = 50; box['e1'].js
                 evA.set(); evB.wait(30)
                 e1 = box['e1']
                 resA['after'] = {'name': e1._vals_.get(E.name), 'status': e1._status_, 'lz_loaded': E.lz in e1._vals_,
@@ -709,7 +711,7 @@ def part3(ctx, env):
     def B():
         evA.wait(30)
         try:
-            e1, d2, e2, m1, e3 = box['e1'], box['d2'], box['e2'], box['m1'], box['e3']
+            e1, d2, e2, m1, e3, e5 = box['e1'], box['d2'], box['e2'], box['m1'], box['e3'], box['e5']
             def t(name, must_raise, f):
                 try:
                     with db_session:
@@ -739,6 +741,11 @@ def part3(ctx, env):
             t('get-by-reference', True, lambda: D.get(e=e1))
             t('foreign.reference=mine', True, lambda: setattr(d2, 'e', eb()))
             t('foreign.collection.add(mine)', True, lambda: e1.ds.add(dbb()))
+            t('foreign.flush()-of-modified', True, lambda: e5.flush())
+            t('foreign.loaded-collection.remove', True, lambda: e3.ms.remove(list(e3.ms)))
+            t('foreign.loaded-collection.clear', True, lambda: e3.ms.clear())
+            t('foreign.loaded-collection=[]', True, lambda: setattr(e3, 'ms', []))
+            t('foreign.json-in-place', True, lambda: e1.js['k'].append(9))
             t('foreign.attr=value', True, lambda: setattr(e1, 'name', 'hacked'))
             t('foreign.delete()', True, lambda: d2.delete())
             t('foreign.set()', True, lambda: e1.set(a=77))
@@ -801,10 +808,10 @@ def run(ctx, extra=None):
     try:
         if extra is not None: replay_input(ctx, env, extra)
         import time
-        t0 = time.time(); part3(ctx, env)
-        t1 = time.time(); part1(ctx, env)
-        t2 = time.time(); part2(ctx, env)
-        ctx.extra['part_seconds'] = {'cross-thread': round(t1 - t0, 1), 'translator-cache': round(t2 - t1, 1), 'all-caches': round(time.time() - t2, 1)}
+        t0 = time.time(); part1(ctx, env)
+        t1 = time.time(); part2(ctx, env)
+        t2 = time.time(); part3(ctx, env)
+        ctx.extra['part_seconds'] = {'translator-cache': round(t1 - t0, 1), 'all-caches': round(t2 - t1, 1), 'cross-thread': round(time.time() - t2, 1)}
     finally:
         env.close()
 
